@@ -96,6 +96,7 @@ struct Totals {
   std::unordered_set<uint64_t> nontrivial, sched_hashes;
   uint64_t runs_by_locale[3] = {0, 0, 0};
   uint64_t runs_caller_tloc = 0;
+  uint64_t runs_waves = 0;         // threads engine: runs in which a later wave of tasks started after earlier threads had exited
   uint64_t perturb_runs = 0;       // partner runs with other contents of uninitialised memory (mem engine)   // runs in which at least one task ran under its own uselocale() object
   std::map<std::string, uint64_t> per_batchkind;
 } TT;
@@ -383,7 +384,9 @@ static void run_threads(const Plan& p) {
     }
     t_task = saved;
   } else {
-    run_tasks(p.sched, bodies);
+    std::vector<int> waves;
+    for (auto& t : p.tasks) waves.push_back(t.wave);
+    run_tasks(p.sched, bodies, waves);
   }
   for (auto& kv : setup.handles) kv.second.shared = false;
   setup.release_all();
@@ -598,6 +601,12 @@ static Plan gen_plan(uint64_t runseed) {
       tp.ops.assign(ops.begin() + skip, ops.end());
       tp.tloc = pick_tloc(runseed, t, p.locale, true);
       p.tasks.push_back(tp);
+    }
+    if (nt >= 3 && splitmix64(runseed ^ tag_of("waves")) % 4 == 0) {
+      // thread lifecycle: a later wave of tasks starts on fresh pthreads after the earlier ones have exited
+      int cut = 1 + (int)(splitmix64(runseed ^ tag_of("wavecut")) % (uint64_t)(nt - 2)) + 1;   // at least two tasks in wave 0
+      if (cut > nt - 1) cut = nt - 1;
+      for (int t = cut; t < nt; t++) p.tasks[t].wave = 1;
     }
     int sc = rs.range(0, 99);
     if (sc < 40) { p.sched.policy = SP_TARGETED; p.sched.param = rs.chance(1, 2) ? 2 : 4; }
@@ -925,6 +934,11 @@ static Plan minimise(const Plan& orig, const std::string& key, int budget) {
   // environment: the caller's thread locale and the allocator reuse mode only stay if the violation needs them
   for (size_t t = 0; t < p.tasks.size() && g_shrink_runs < budget; t++)
     if (p.tasks[t].tloc) { Plan q = p; q.tasks[t].tloc = 0; if (still_fails(q, key)) p = q; }
+  {
+    bool any = false;
+    for (auto& t : p.tasks) any = any || t.wave;
+    if (any && g_shrink_runs < budget && p.sched.policy != SP_EXPLICIT) { Plan q = p; for (auto& t : q.tasks) t.wave = 0; if (still_fails(q, key)) p = q; }
+  }
   if (p.reuse && g_shrink_runs < budget) { Plan q = p; q.reuse = 0; if (still_fails(q, key)) p = q; }
   if (p.errno_mode && g_shrink_runs < budget) { Plan q = p; q.errno_mode = 0; if (still_fails(q, key)) p = q; }
   return p;
@@ -1020,6 +1034,7 @@ static void one_run(const Plan& p, long index) {
   TT.runs++;
   TT.runs_by_locale[p.locale % 3]++;
   for (auto& t : p.tasks) if (t.tloc) { TT.runs_caller_tloc++; break; }
+  for (auto& t : p.tasks) if (t.wave) { TT.runs_waves++; break; }
   if (nontrivial_plan(p, o)) TT.nontrivial.insert(plan_hash(p));
   if (index >= 0 && index < O.gate_n) {
     Outcome o2 = evaluate(p, false);
@@ -1289,7 +1304,7 @@ int main(int argc, char** argv) {
     kv("oom_unhandled", TT.oom_unhandled); kv("oom_swallowed", TT.oom_swallowed); kv("watchdog", TT.watchdog); kv("internal", TT.internal);
     kv("first_call_runs", g_first_runs); kv("unmodelled_sync", TT.unmodelled_sync); kv("edges_total", g_cov_n ? g_cov_n - 1 : 0); kv("edges_covered", cov);
     kv("nontrivial", TT.nontrivial.size()); kv("sched_hashes", TT.sched_hashes.size());
-    kv("runs_locale_C", TT.runs_by_locale[0]); kv("runs_locale_Cutf8", TT.runs_by_locale[1]); kv("runs_locale_xx", TT.runs_by_locale[2]); kv("runs_caller_thread_locale", TT.runs_caller_tloc); kv("perturbation_partner_runs", TT.perturb_runs);
+    kv("runs_locale_C", TT.runs_by_locale[0]); kv("runs_locale_Cutf8", TT.runs_by_locale[1]); kv("runs_locale_xx", TT.runs_by_locale[2]); kv("runs_caller_thread_locale", TT.runs_caller_tloc); kv("perturbation_partner_runs", TT.perturb_runs); kv("runs_with_thread_waves", TT.runs_waves);
     snprintf(b, sizeof b, ",\"wall_s\":%.3f", wall); s += b;
     s += ",\"faults\":{";
     for (int i = 0; i < FK_N; i++) { snprintf(b, sizeof b, "%s\"%s\":%llu", i ? "," : "", kFaultNames[i], (unsigned long long)TT.faults[i]); s += b; }
